@@ -33,3 +33,39 @@ package enterprise
 //@   ensures @no_mint_without_accepted_order (forall x uint64 :: {s0[kAccepted(x)]} !acceptedHas(s0, x)) ==> bank_supply == old(bank_supply) && bank_bal == old(bank_bal)
 //@   ensures @other_denoms_untouched forall d string :: {bank_supply[d]} d != entDenom(s0) ==> bank_supply[d] == old(bank_supply)[d]
 //@   ensures @inv ENT_ALL(ent_store) && ENT_BOOKS_WF(ent_store) && BANK_OK(bank_bal) && ENT_LEDGER(ent_store, bank_bal, bytesval(modAddr("enterprise")))
+
+// Genesis import (C15), the purchase-order part: on a store that holds no orders and no queue entries, every order of
+// the document is stored exactly as given, the raised/accepted queues are rebuilt from the statuses (so that ENT_Q
+// holds and the next block begin can tally/complete them), nothing else appears in the order and queue sections, and
+// the next order id is the document's.  Document preconditions (not checked by the code, reported here): order ids are
+// pairwise distinct and below the starting id.  The function panics on a malformed document; that is not excluded.
+//@ func InitGenesis(ctx, keeper, bankKeeper, accountKeeper, data) (updates)
+//@   props C15
+//@   requires forall i int :: {ent_store[kPO(i)]} {ent_store[kRaised(i)]} {ent_store[kAccepted(i)]} !poHas(ent_store, i) && !raisedHas(ent_store, i) && !acceptedHas(ent_store, i)
+//@   requires forall i int, j int :: {data.PurchaseOrders[i], data.PurchaseOrders[j]} 0 <= i && i < j && j < len(data.PurchaseOrders) ==> data.PurchaseOrders[i].Id != data.PurchaseOrders[j].Id
+//@   requires forall j int :: {data.PurchaseOrders[j]} 0 <= j && j < len(data.PurchaseOrders) ==> data.PurchaseOrders[j].Id < data.StartingPurchaseOrderId
+//@   requires forall j int :: {data.LockedUnd[j]} 0 <= j && j < len(data.LockedUnd) ==> !isnil(data.LockedUnd[j].Amount.Amount)
+//@   let s0 := old(ent_store)
+//@   let pos := data.PurchaseOrders
+//@   modifies ent_store, bank_bal
+//@   ensures @orders_imported forall j int :: {pos[j]} 0 <= j && j < len(pos) ==> poHas(ent_store, pos[j].Id) && ent_store[kPO(pos[j].Id)] == poBytes(pos[j])
+//@   ensures @orders_read_back_as_given derived forall j int :: {pos[j]} 0 <= j && j < len(pos) ==> poGet(ent_store, pos[j].Id) == pos[j]
+//@   ensures @queues_rebuilt forall j int :: {pos[j]} 0 <= j && j < len(pos) ==> raisedHas(ent_store, pos[j].Id) == (pos[j].Status == 1) && acceptedHas(ent_store, pos[j].Id) == (pos[j].Status == 2) && (raisedHas(ent_store, pos[j].Id) ==> qval(ent_store[kRaised(pos[j].Id)], pos[j].Id)) && (acceptedHas(ent_store, pos[j].Id) ==> qval(ent_store[kAccepted(pos[j].Id)], pos[j].Id))
+//@   ensures @statuses_valid forall j int :: {pos[j]} 0 <= j && j < len(pos) ==> 1 <= pos[j].Status && pos[j].Status <= 4
+//@   ensures @nothing_else forall i int :: {ent_store[kPO(i)]} {ent_store[kRaised(i)]} {ent_store[kAccepted(i)]} poHas(ent_store, i) || raisedHas(ent_store, i) || acceptedHas(ent_store, i) ==> exists j int :: 0 <= j && j < len(pos) && pos[j].Id == i
+//@   ensures @next_id entHighestIs(ent_store, data.StartingPurchaseOrderId)
+//@   ensures @inv_queues derived ENT_Q(ent_store)
+//@   ensures @inv_fresh derived ENT_FRESH(ent_store)
+//@   loop 0: invariant 0 - 1 <= rangeindex && entHighestIs(ent_store, data.StartingPurchaseOrderId)
+//@   loop 0: invariant forall k `enterprise.Key` :: {ent_store[k]} isPOKey(k) || isRaisedKey(k) || isAcceptedKey(k) ==> ent_store[k] == s0[k]
+//@   loop 1: invariant 0 - 1 <= rangeindex && rangeindex < len(pos) && entHighestIs(ent_store, data.StartingPurchaseOrderId)
+//@   loop 1: invariant forall j int :: {pos[j]} 0 <= j && j <= rangeindex ==> poHas(ent_store, pos[j].Id) && 1 <= pos[j].Status && pos[j].Status <= 4
+//@   loop 1: invariant forall j int :: {pos[j]} 0 <= j && j <= rangeindex ==> ent_store[kPO(pos[j].Id)] == poBytes(pos[j])
+//@   loop 1: invariant forall j int :: {pos[j]} 0 <= j && j <= rangeindex ==> raisedHas(ent_store, pos[j].Id) == (pos[j].Status == 1) && acceptedHas(ent_store, pos[j].Id) == (pos[j].Status == 2) && (raisedHas(ent_store, pos[j].Id) ==> qval(ent_store[kRaised(pos[j].Id)], pos[j].Id)) && (acceptedHas(ent_store, pos[j].Id) ==> qval(ent_store[kAccepted(pos[j].Id)], pos[j].Id))
+//@   loop 1: invariant forall i int :: {ent_store[kPO(i)]} {ent_store[kRaised(i)]} {ent_store[kAccepted(i)]} poHas(ent_store, i) || raisedHas(ent_store, i) || acceptedHas(ent_store, i) ==> exists j int :: 0 <= j && j <= rangeindex && pos[j].Id == i
+//@   loop 2: invariant 0 - 1 <= rangeindex && forall k `enterprise.Key` :: {ent_store[k]} isPOKey(k) || isRaisedKey(k) || isAcceptedKey(k) || k == kEHighest ==> ent_store[k] == at_loop_entry(ent_store)[k]
+//@   loop 3: invariant 0 - 1 <= rangeindex && forall k `enterprise.Key` :: {ent_store[k]} isPOKey(k) || isRaisedKey(k) || isAcceptedKey(k) || k == kEHighest ==> ent_store[k] == at_loop_entry(ent_store)[k]
+
+//@ func (github.com/unification-com/mainchain/x/enterprise/keeper.Keeper).GetEnterpriseAccount(ctx) (r)
+//@   trusted returns the module account object from the account keeper; reads no enterprise state
+//@   pure
